@@ -87,6 +87,11 @@ type half struct {
 	dlv     []frameRec // as handed to the receiving end
 	held    []byte     // swap: delivered after the next frame
 	lastAt  int64
+	// frame boundaries of the delivered byte stream (reach probe: a read
+	// deadline that expires in the middle of a frame)
+	dlvBytes int64
+	bounds   map[int64]bool
+	consumed int64
 }
 
 func (h *half) buffered() int {
@@ -212,6 +217,7 @@ func (e *end) Read(p []byte) (int, error) {
 		if len(h.rbuf) > 0 {
 			n = copy(p, h.rbuf)
 			h.rbuf = h.rbuf[n:]
+			h.consumed += int64(n)
 			return true
 		}
 		if h.wclosed && len(h.q) == 0 {
@@ -220,6 +226,11 @@ func (e *end) Read(p []byte) (int, error) {
 		}
 		if !e.rdl.IsZero() && !simrt.Now().Before(e.rdl) {
 			err = timeoutErr{}
+			simrt.Count("probe.read_deadline_expired", 1)
+			if h.consumed != 0 && !h.bounds[h.consumed] {
+				simrt.Count("probe.read_deadline_expired_mid_frame", 1)
+				simrt.Event("READ-TIMEOUT-MID-FRAME %s side=%s", e.l.name(), e.who())
+			}
 			return true
 		}
 		return false
@@ -420,6 +431,13 @@ func (h *half) deliver(fr []byte, forged bool) {
 	rec := parseFrame(idx, fr, h.dir)
 	rec.Forged = forged
 	h.dlv = append(h.dlv, rec)
+	if h.bounds == nil {
+		h.bounds = map[int64]bool{}
+	}
+	h.dlvBytes += int64(len(fr))
+	if !forged {
+		h.bounds[h.dlvBytes] = true
+	}
 	at := simrt.SimNow() + h.l.n.latencyNs
 	if at < h.lastAt {
 		at = h.lastAt
